@@ -286,8 +286,13 @@ static std::string doTree(const std::vector<std::string> &t) {
   std::ostringstream tree;
   try {
     json k = json::parse(d);
-    try { eq = (k == v) ? "1" : "0"; } catch (occa::exception &e) { eq = "X"; }
-    sm = same(k, v) ? "1" : "0";
+    if (dom) {
+      try { eq = (k == v) ? "1" : "0"; } catch (occa::exception &e) { eq = "X"; }
+      sm = same(k, v) ? "1" : "0";
+    } else {
+      // outside the oracle's domain (none nodes, non-finite floats) only the texts and trees are compared
+      eq = "-"; sm = "-";
+    }
     enc(tree, k);
   } catch (occa::exception &e) {
     eq = "E"; sm = "-"; tree.str("ERR");
